@@ -367,6 +367,11 @@ impl<'a> Fields<'a> {
                                 .implements
                                 .get(&*introspection_type_name)
                                 .is_some_and(|interfaces| interfaces.contains(condition))
+                            || matches!(
+                                ctx.schema_env.registry.types.get(condition),
+                                Some(crate::registry::MetaType::Union { possible_types, .. })
+                                    if possible_types.contains(&*introspection_type_name)
+                            )
                     });
                     if applies_concrete_object {
                         root.collect_all_fields(&ctx.with_selection_set(selection_set), self)?;
